@@ -56,9 +56,15 @@ def rows(rng, T, dim, lim=4, maxpow=1):
 
 
 # ------------------------------------------------------------------------------------------ scenario generation (fit)
-def mk_res(rng, i, name, idim):
+def mk_res(rng, i, name, idim, units=None):
     nd = scengen.make_node(rng, i, "res", idim)
+    while units is not None and len(nd["W"]) != units:
+        nd = scengen.make_node(rng, i, "res", idim)
     nd["name"] = name
+    if nd["act"] != "hardtanh":
+        # identity / relu / x/2 are unbounded: keep the recurrence contractive (row sums < 1) so that the states, hence the
+        # conditioning of the ridge systems, stay O(1) and float64 stays within the tolerance
+        nd["W"] = [[str(Fraction(v) / 8) for v in r] for r in nd["W"]]
     return nd
 
 
@@ -87,11 +93,12 @@ def gen_fit(rng, family):
         edges = [[0, 1], [1, 2]]
     elif family == "deep":
         r1 = mk_res(rng, 0, "a_res1", d)
-        nodes = [r1, mk_ridge(rng, 1, "b_rd1", o), mk_res(rng, 2, "c_res2", o), mk_ridge(rng, 3, "d_rd2", o)]
+        nodes = [r1, mk_ridge(rng, 1, "b_rd1", o), mk_res(rng, 2, "c_res2", o, 2), mk_ridge(rng, 3, "d_rd2", o)]
         edges = [[0, 1], [1, 2], [2, 3]]
     elif family == "deep3":
-        nodes = [mk_res(rng, 0, "a_res1", d), mk_ridge(rng, 1, "b_rd1", o), mk_res(rng, 2, "c_res2", o), mk_ridge(rng, 3, "d_rd2", o),
-                 mk_res(rng, 4, "e_res3", o), mk_ridge(rng, 5, "f_rd3", o)]
+        o = 1        # exact rational arithmetic through three successive ridge solutions: keep the sizes small
+        nodes = [mk_res(rng, 0, "a_res1", d, 2), mk_ridge(rng, 1, "b_rd1", o), mk_res(rng, 2, "c_res2", o, 2), mk_ridge(rng, 3, "d_rd2", o),
+                 mk_res(rng, 4, "e_res3", o, 2), mk_ridge(rng, 5, "f_rd3", o)]
         edges = [[0, 1], [1, 2], [2, 3], [3, 4], [4, 5]]
     elif family == "shortcut":
         nm = rng.choice([("a_in", "b_res"), ("z_in", "b_res")])       # both fan-in orders of the inserted Concat
@@ -129,7 +136,9 @@ def gen_fit(rng, family):
         raise ValueError(family)
     warm = rng.choice([0, 0, 1, 2])
     J = rng.choice([1, 1, 2, 3])
-    lens = [warm + rng.randint(2, 5) for _ in range(J)]
+    if family == "deep3":
+        J = min(J, 2)
+    lens = [warm + rng.randint(2, 3 if family == "deep3" else 5) for _ in range(J)]
     X = [rows(rng, T, d) for T in lens]
     ridges = [n["id"] for n in nodes if n["kind"] == "ridge"]
     ymode = rng.choice(["array", "mapping"])
@@ -459,7 +468,7 @@ def correspondence(ctx):
         dist[key] = dist.get(key, 0) + 1
         if nontrivial(sc, o):
             nt.add(repr(jsonable(sc)))
-    failing, err = core.run_cases(ctx.pid, IMPORTS, terms, chunk=12)
+    failing, err = core.run_cases(ctx.pid, IMPORTS, terms, chunk=6)
     return {"evaluations": len(cases), "distinct_nontrivial": len(nt),
             "rule": "Model.fit on {res>>ridge, input>>res>>ridge, deep with 2 and 3 readouts, input-to-readout shortcut (both Concat fan-in orders), "
                     "two parallel readouts, readout fed by the data, cross-stage Concat, ESN node} x {1-3 sequences, warm-up 0-2, reset on/off, "
